@@ -12,3 +12,4 @@ import OapiVerif.Props.C17
 import OapiVerif.Props.C02
 import OapiVerif.Props.C08
 import OapiVerif.Props.C19
+import OapiVerif.Props.C20
